@@ -24,7 +24,8 @@ def dec_c10(fdp):
     sk = fdp.ConsumeIntInRange(0, 3)
     start = [["alloc", fdp.ConsumeIntInRange(0, 4)], ["list", fdp.ConsumeIntInRange(1, 4)], ["empty", 0], ["default", 1]][sk]
     names = ["get", "slice", "iter", "append", "extend", "insert", "pop", "del", "set", "reverse", "clear", "ctor_list", "copy",
-             "append_other", "append_multi", "extend_other", "append_array", "insert_other", "insert_multi", "set_other", "set_multi"]
+             "append_other", "append_multi", "extend_other", "append_array", "insert_other", "insert_multi", "set_other", "set_multi",
+             "ctor_list_other", "ctor_list_other_first"]
     ops = []
     n = fdp.ConsumeIntInRange(1, 40)
 
